@@ -72,6 +72,7 @@ package rules
 //@ iface Service.ExportSlashingProtection(self, ctx)
 //@ ensures [records] result1 == nil ==> result0 != nil && (forall k [48]byte :: k in result0 ==> result0[k] != nil && allocated(result0[k]) && result0[k].HighestProposedSlot == wmPropL(bytes(k)) && result0[k].HighestAttestedSourceEpoch == wmAttS(bytes(k)) && result0[k].HighestAttestedTargetEpoch == wmAttT(bytes(k)))
 //@ ensures [absent] result1 == nil ==> (forall k [48]byte :: !(k in result0) ==> wmPropL(bytes(k)) == 0 - 1 && wmAttS(bytes(k)) == 0 - 1 && wmAttT(bytes(k)) == 0 - 1)
+//@ ensures [pubkey] result1 == nil ==> (forall k [48]byte :: k in result0 ==> len(result0[k].PubKey) == 48 && key48(result0[k].PubKey) == k)
 //@ iface Service.ImportSlashingProtection(self, ctx, protection)
 //@ requires [nonnil] forall k [48]byte :: k in protection ==> protection[k] != nil
 //@ modifies db
